@@ -296,10 +296,20 @@ package stree
 //@   call extract#2: cmp = cmp
 //@   at return 1: ghost ni = lambda y int :: 0
 //@   at return 1: ghost ki = lambda k int :: 0
+//@   at after "root := nodes[mid]": assert [C01] forall j int :: {nodes[j]} mid < j && j < len(nodes) ==> nodes[j] == nodes[mid+1:][j - mid - 1]
+//@   at after "root := nodes[mid]": assert [C01] forall k int :: {nodes[mid+1:][k]} 0 <= k && k < len(nodes) - mid - 1 ==> nodes[mid+1:][k] == nodes[mid + 1 + k]
+//@   at after "root := nodes[mid]": assert [C01] forall k int :: {nodes[:mid][k]} {nodes[k]} 0 <= k && k < mid ==> nodes[:mid][k] == nodes[k]
 //@   at after "root.left = extract(nodes[:mid])": ghost niL = extract_ni
 //@   at after "root.left = extract(nodes[:mid])": ghost kiL = extract_ki
+//@   at after "root.left = extract(nodes[:mid])": assert [C01] forall y ref :: {inD(root.left, y)} inD(root.left, y) ==> 0 <= niL[y] && niL[y] < mid && nodes[niL[y]] == y
+//@   at after "root.left = extract(nodes[:mid])": assert [C01] forall k int :: {inK(root.left, k)} inK(root.left, k) ==> 0 <= kiL[k] && kiL[k] < mid && rank(cmp, nodes[kiL[k]].X) == k && k < rank(cmp, root.X)
+//@   at after "root.left = extract(nodes[:mid])": assert [C01] !inD(root.left, root)
 //@   at after "root.right = extract(nodes[mid+1:])": ghost niR = extract_ni
 //@   at after "root.right = extract(nodes[mid+1:])": ghost kiR = extract_ki
+//@   at after "root.right = extract(nodes[mid+1:])": assert [C01] forall y ref :: {inD(root.right, y)} inD(root.right, y) ==> 0 <= niR[y] && mid + 1 + niR[y] < len(nodes) && nodes[mid + 1 + niR[y]] == y
+//@   at after "root.right = extract(nodes[mid+1:])": assert [C01] forall k int :: {inK(root.right, k)} inK(root.right, k) ==> 0 <= kiR[k] && mid + 1 + kiR[k] < len(nodes) && rank(cmp, nodes[mid + 1 + kiR[k]].X) == k && k > rank(cmp, root.X)
+//@   at after "root.right = extract(nodes[mid+1:])": assert [C01] !inD(root.right, root) && (forall y ref :: {inD(root.left, y)} {inD(root.right, y)} !(inD(root.left, y) && inD(root.right, y)))
+//@   at after "root.right = extract(nodes[mid+1:])": assert [C01] treeOK(root.left, cmp)
 //@   at after "root.right = extract(nodes[mid+1:])": ghost root.keys = lambda k int :: k == rank(cmp, root.X) || inK(root.left, k) || inK(root.right, k)
 //@   at after "root.right = extract(nodes[mid+1:])": ghost root.desc = lambda y int :: y == root || inD(root.left, y) || inD(root.right, y)
 //@   at after "root.right = extract(nodes[mid+1:])": ghost root.cnt = 1 + cntOf(root.left) + cntOf(root.right)
